@@ -283,7 +283,7 @@ def validate(ctx, traces, label, sigs_by_tid=None):
     for line in res.output.splitlines():
         if line.startswith('<<"FAIL"'):
             v = tlaval.parse(line.strip())
-            fails.setdefault(v[1], []).append((v[2], str(v[3]), str(v[4]), tuple(str(x) for x in v[5])))
+            fails.setdefault(v[1], []).append((v[2], str(v[3]), str(v[4]), int(v[5])))
         elif line.startswith('<<"DONE"'):
             v = tlaval.parse(line.strip())
             done[v[1]] = v[2]
@@ -294,7 +294,8 @@ def validate(ctx, traces, label, sigs_by_tid=None):
         fl = sorted(set(fails.get(obj["tid"], [])))
         if not any(cl != "placement" for (_, cl, _, _) in fl):
             clean += 1
-        for (step, clause, want, name) in fl:
+        for (step, clause, want, nameno) in fl:
+            name = tuple(traces[0][0]["names"][nameno - 1]) if nameno else ()
             f = describe(rec, obj, step, clause, want, name)
             if sigs_by_tid is not None:
                 sigs_by_tid.setdefault(obj["tid"], set()).add(f.sig)
@@ -347,7 +348,11 @@ def describe(rec: Recorder, obj, step, clause, want, name):
         some = lambda k, n: "none" if k == 0 else ("all" if k == n else "some")    # noqa: E731
         longest = max(last, key=namelen)
         marked = any(v.startswith("mk") for v in last.values())
-        case = (f"BatchSet count={len(last)}{len_class(longest)}{' value=mk' if marked else ''} "
+        # an earlier write of a long name leaves a record that a consolidating batch reads back as garbage
+        earlier = any(namelen(tuple(x["n"])) >= 32 or any(namelen(tuple(i["n"])) >= 32 for i in x.get("items", ()))
+                      for x in rec.ev[:step - 1] if x["op"] in ("Set", "SetIfEquals", "AddIfNew", "SetSymbolic", "BatchSet"))
+        case = (f"BatchSet count={len(last)}{len_class(longest)}{' value=mk' if marked else ''}"
+                f"{' after-long-name-write' if earlier else ''} "
                 f"missing={some(missing, len(last))} wrong={some(wrong, len(last))} others-changed={some(others, max(others, 1)) if others else 'none'}")
         sig = f"{site}.{METHOD['BatchSet'] if be.kind == 'reftable' else '__setitem__'}|{clause}|{case} got={e['got']}"
         what = (f"a batch of {len(last)} refs[n] = v returned {e['got']}; afterwards {missing} of them are missing, {wrong} hold "
